@@ -49,6 +49,43 @@ pub enum Job {
     /// font (one cmap bit flipped) during an earlier subsetting run: the result must be that of the bytes
     /// now in the buffer, whatever the same memory held before
     SubsetReusedBuffer { font: String, gids: Vec<u32>, unicodes: Vec<u32>, flags: u16, flip: u32 },
+    /// crash point inside an earlier compilation: on the same thread, a compilation of part of the same
+    /// GPOS/GSUB table (part 0 script list, 1 feature list, 2 lookup list, 3 all three) is aborted by a panic
+    /// after its subtables were handed to the writer; the caller catches it and compiles the whole table.
+    /// The result must be that of a thread that never saw the aborted compilation.
+    RoundtripAfterAbort { font: String, tag: String, part: u8 },
+}
+
+/// Hands `parts` to the table writer as subtables, then dies: a `write_into` that panics half way.
+struct AbortAfter<'a>(Vec<&'a dyn write_fonts::FontWrite>);
+impl write_fonts::FontWrite for AbortAfter<'_> {
+    fn write_into(&self, w: &mut write_fonts::TableWriter) {
+        for p in &self.0 {
+            p.write_into(w);
+        }
+        std::panic::resume_unwind(Box::new("verif: compilation aborted half way"));
+    }
+}
+impl write_fonts::validate::Validate for AbortAfter<'_> {
+    fn validate_impl(&self, _ctx: &mut write_fonts::validate::ValidationCtx) {}
+}
+
+fn aborted_partial_compile(data: &[u8], tag: &str, part: u8) {
+    macro_rules! abort {
+        ($ty:ty) => {{
+            if let Ok(t) = <$ty as FontRead>::read(FontData::new(data)) {
+                let all: [&dyn write_fonts::FontWrite; 3] = [&t.script_list, &t.feature_list, &t.lookup_list];
+                let parts: Vec<&dyn write_fonts::FontWrite> = if part >= 3 { all.to_vec() } else { vec![all[part as usize]] };
+                let w = AbortAfter(parts);
+                let _ = std::panic::catch_unwind(std::panic::AssertUnwindSafe(|| dump_table(&w)));
+            }
+        }};
+    }
+    match tag {
+        "GPOS" => abort!(tables::gpos::Gpos),
+        "GSUB" => abort!(tables::gsub::Gsub),
+        _ => {}
+    }
 }
 
 impl Job {
@@ -194,6 +231,13 @@ fn run_job_inner(job: &Job) -> Result<Vec<u8>, String> {
             let f = corpus::by_name(font).ok_or("nofont")?;
             let fr = FontRef::new(f.data).map_err(|_| "open".to_string())?;
             let data = fr.table_data(tag_of(tag)).ok_or("notable")?;
+            roundtrip(data.as_bytes(), tag)
+        }
+        Job::RoundtripAfterAbort { font, tag, part } => {
+            let f = corpus::by_name(font).ok_or("nofont")?;
+            let fr = FontRef::new(f.data).map_err(|_| "open".to_string())?;
+            let data = fr.table_data(tag_of(tag)).ok_or("notable")?;
+            aborted_partial_compile(data.as_bytes(), tag, *part);
             roundtrip(data.as_bytes(), tag)
         }
         Job::BigPairPos { ranges, width } => {
@@ -550,7 +594,11 @@ pub fn gen_job(rng: &mut Rng, heavy_ok: bool) -> Job {
     match rng.weighted(&w) {
         0 => {
             let (f, t) = rng.pick(&p.roundtrips).clone();
-            Job::Roundtrip { font: f, tag: t }
+            if (t == "GPOS" || t == "GSUB") && rng.chance(1, 3) {
+                Job::RoundtripAfterAbort { font: f, tag: t, part: rng.below(4) as u8 }
+            } else {
+                Job::Roundtrip { font: f, tag: t }
+            }
         }
         1 => {
             // sizes from well under to a few times the 64 KiB limit
@@ -643,6 +691,8 @@ fn reference(job: &Job) -> JobOut {
     // the reference of a reused-buffer subset is the subset of the pristine bytes with no earlier run at all
     let j = match job {
         Job::SubsetReusedBuffer { font, gids, unicodes, flags, .. } => Job::Subset { font: font.clone(), gids: gids.clone(), unicodes: unicodes.clone(), flags: *flags },
+        // ... and of a compilation that follows an aborted one, the compilation alone
+        Job::RoundtripAfterAbort { font, tag, .. } => Job::Roundtrip { font: font.clone(), tag: tag.clone() },
         other => other.clone(),
     };
     let out = hashseed::run_on_fresh_thread(0, 16 << 20, move || {
@@ -848,18 +898,49 @@ impl Engine for CompileDeterminism {
 pub struct CrossTrace {
     pub jobs: Vec<Job>,
     pub hash_seeds: Vec<u64>,
+    /// one per fresh process: seed of the allocation history that runs before the jobs and leaves the
+    /// allocator's free lists in a chosen, scrambled address order (0 = none)
+    #[serde(default)]
+    pub layout_seeds: Vec<u64>,
+}
+
+/// Heap-layout seam: a seed-determined burst of allocations of the sizes compilation uses, half of
+/// them freed in a shuffled order. The allocator hands freed chunks back in (an image of) that order,
+/// so the relative address order of the objects the jobs allocate afterwards differs from process
+/// to process by choice instead of by the kernel's luck. The survivors are returned and stay alive.
+pub fn scramble_heap(seed: u64) -> Vec<Vec<u8>> {
+    if seed == 0 {
+        return Vec::new();
+    }
+    let mut rng = Rng::new(seed);
+    let sizes = [8usize, 16, 24, 32, 40, 48, 64, 80, 96, 128, 192, 256, 384, 512, 1024, 2048, 4096, 16384];
+    let n = 2000 + rng.below(6000) as usize;
+    let mut held: Vec<Vec<u8>> = (0..n).map(|_| Vec::with_capacity(*rng.pick(&sizes) + rng.below(8) as usize)).collect();
+    rng.shuffle(&mut held);
+    let keep = held.len() / 2;
+    while held.len() > keep {
+        held.pop();
+    }
+    held
 }
 
 pub struct CrossProcess;
 
 /// `verif-sim jobdigest <hash seed> <json jobs>`: prints one line per job.
-pub fn jobdigest_main(hash_seed: u64, jobs_json: &str) -> i32 {
+pub fn jobdigest_main(hash_seed: u64, layout_seed: u64, jobs_json: &str) -> i32 {
     let jobs: Vec<Job> = match serde_json::from_str(jobs_json) {
         Ok(j) => j,
         Err(_) => return 2,
     };
     crate::core::panics::install();
-    let outs = hashseed::run_on_fresh_thread(hash_seed, 32 << 20, move || jobs.iter().map(run_job).collect::<Vec<_>>()).unwrap_or_default();
+    let outs = hashseed::run_on_fresh_thread(hash_seed, 32 << 20, move || {
+        // on the thread that runs the jobs: glibc gives each thread its own arena
+        let held = scramble_heap(layout_seed);
+        let r = jobs.iter().map(run_job).collect::<Vec<_>>();
+        drop(held);
+        r
+    })
+    .unwrap_or_default();
     for o in outs {
         match o {
             JobOut::Bytes { digest, len } => println!("B {digest:016x} {len}"),
@@ -882,16 +963,17 @@ impl Engine for CrossProcess {
         "compile_fresh_processes"
     }
     fn rule(&self) -> &'static str {
-        "case = 2-6 compile jobs executed in this worker process and again in two freshly started processes (new address space, allocator and counter state) under different hash seeds; per-job output digests must agree; non-trivial iff >=1 job produced bytes"
+        "case = 2-6 compile jobs executed in this worker process and again in two freshly started processes (new address space, allocator and counter state) under different hash seeds and, in the fresh processes, after a seed-chosen allocation history that scrambles the allocator's free lists (relative address order of later objects); per-job output digests must agree; non-trivial iff >=1 job produced bytes"
     }
     fn components(&self) -> &'static str {
-        "real: write-fonts / klippa compilation in separate OS processes; simulated: hash seeds (getrandom interposition) - the OS decides addresses"
+        "real: write-fonts / klippa compilation in separate OS processes; simulated: hash seeds (getrandom interposition), heap layout history (scramble_heap); the kernel still decides the address-space base"
     }
     fn generate(&self, case_seed: u64) -> CrossTrace {
         let mut rng = Rng::new(case_seed);
         let heavy = rng.chance(1, 10);
         let jobs = (0..2 + rng.below(5)).map(|_| gen_job(&mut rng, heavy)).collect();
-        CrossTrace { jobs, hash_seeds: vec![rng.next_u64() | 1, rng.next_u64() | 1] }
+        let hash_seeds = vec![rng.next_u64() | 1, rng.next_u64() | 1];
+        CrossTrace { jobs, hash_seeds, layout_seeds: vec![rng.next_u64() | 1, rng.next_u64() | 1] }
     }
     fn execute(&self, t: &mut CrossTrace, stats: &mut Stats) -> Verdict {
         let _ = (corpus::corpus(), pool());
@@ -901,8 +983,12 @@ impl Engine for CrossProcess {
             Ok(e) => e,
             Err(_) => return Verdict::Inconclusive("no current_exe".into()),
         };
-        for hs in &t.hash_seeds {
-            let out = std::process::Command::new(&exe).arg("jobdigest").arg(hs.to_string()).arg(&json).output();
+        for (pi, hs) in t.hash_seeds.iter().enumerate() {
+            let layout = t.layout_seeds.get(pi).copied().unwrap_or(0);
+            if layout != 0 {
+                stats.bump("fault.process.scrambled_heap_layout");
+            }
+            let out = std::process::Command::new(&exe).arg("jobdigest").arg(hs.to_string()).arg(&json).arg(layout.to_string()).output();
             let Ok(out) = out else { return Verdict::Inconclusive("cannot start a fresh process".into()) };
             let lines: Vec<String> = String::from_utf8_lossy(&out.stdout).lines().map(|l| l.to_string()).collect();
             if lines.len() != here.len() {
@@ -923,6 +1009,6 @@ impl Engine for CrossProcess {
         Verdict::Pass { digest: d.finish(), sig: fnv(json.as_bytes()), nontrivial: here.iter().any(|l| l.starts_with('B')) }
     }
     fn shrink(&self, t: &CrossTrace) -> Vec<CrossTrace> {
-        crate::core::drop_chunks(&t.jobs).into_iter().filter(|j| !j.is_empty()).map(|jobs| CrossTrace { jobs, hash_seeds: t.hash_seeds.clone() }).collect()
+        crate::core::drop_chunks(&t.jobs).into_iter().filter(|j| !j.is_empty()).map(|jobs| CrossTrace { jobs, hash_seeds: t.hash_seeds.clone(), layout_seeds: t.layout_seeds.clone() }).collect()
     }
 }
